@@ -1312,6 +1312,31 @@ def e2e_eval(case: dict) -> _Collector:
             if dup:
                 duplicating(subject.endpoint)
                 duplicating(verifier.endpoint)
+            # network fault: challenge responses (message id 4) overtake each other. "swap" is a bit mask over their
+            # running number: a marked response waits until the next one has left (or 20 ms at most)
+            swap = case.get("swap")
+            if swap:
+                held: list = []
+                orig_send = subject.endpoint.send
+
+                def release() -> None:
+                    while held:
+                        orig_send(*held.pop(0))
+
+                def swapping(address, packet):
+                    if len(packet) > 22 and packet[22] == 4:
+                        k = counter["n"]
+                        counter["n"] += 1
+                        if (int(swap) >> (k % 32)) & 1 and not held:
+                            held.append((address, packet))
+                            counter["dups"] += 1
+                            asyncio.get_event_loop().call_later(0.02, release)
+                            return
+                        orig_send(address, packet)
+                        release()
+                        return
+                    orig_send(address, packet)
+                subject.endpoint.send = swapping
 
             async def pump(cond) -> bool:
                 for _ in range(_PUMP_LIMIT):
@@ -1391,13 +1416,15 @@ def e2e_eval(case: dict) -> _Collector:
 def _e2e_strategy(quick: bool, dup_mode: str = "none"):
     from hypothesis import strategies as st
     dup = {"none": st.none(), "all": st.just("all"), "mask": st.integers(1, 2 ** 32 - 1),
-           "range": st.none(), "range-dup": st.just("all"), "pre": st.none()}[dup_mode]
+           "range": st.none(), "range-dup": st.just("all"), "pre": st.none(), "swap": st.none()}[dup_mode]
     value = st.one_of(st.binary(max_size=40), st.text(max_size=20).map(lambda t: t.encode("utf-8")))
     exact = st.fixed_dictionaries({
         "part": st.just("e2e"), "seed": st.integers(0, 2 ** 32 - 1),
         "format": st.just("id_metadata") if quick else st.sampled_from(["id_metadata"] * 5 + ["id_metadata_big"]),
         "value": value, "rivals": st.lists(value, min_size=1, max_size=3),
-        "dup": dup, **({"pre": st.just("id_metadata_big")} if dup_mode == "pre" else {})})
+        "dup": dup, **({"pre": st.just("id_metadata_big")} if dup_mode == "pre" else {}),
+        **({"swap": st.sampled_from([1, 2, 5, 0x55555555, 0xFFFFFFFF]) | st.integers(1, 2 ** 32 - 1)}
+           if dup_mode == "swap" else {})})
     rng = st.fixed_dictionaries({
         "part": st.just("e2e"), "seed": st.integers(0, 2 ** 32 - 1), "format": st.just("id_metadata_range_18plus"),
         "value": st.integers(18, 200).map(_int_to_value), "dup": dup})
@@ -1412,12 +1439,13 @@ def _hyp_e2e_shard(ctx: Ctx, shard: int, nshards: int, n: int) -> None:
         if _gave_up(ctx, c, "e2e", case):
             return
         ctx.case(case, not c.fails, cls="b:e2e/" + case["format"] + ("/dup" if case.get("dup") else "") +
+                 ("/swap" if case.get("swap") else "") +
                  ("/after-" + case["pre"] if case.get("pre") else ""))
         for v in c.fails.values():
             ctx.violation(v)
         if c.fails:
             raise c.first()
-    for mode in ("none", "all", "mask", "range", "range-dup", "pre"):
+    for mode in ("none", "all", "mask", "range", "range-dup", "pre", "swap"):
         hyp_run(ctx, "e2e:" + mode, _e2e_strategy(ctx.quick, mode), body, n, shrink_examples=6)
 
 
